@@ -566,12 +566,204 @@ def run_smallimag_case(seed, idx):
     return info, fails, nchecks
 
 
+# ------------------------------------------------------------------- one list of SYMBOLIC observables, several models
+# The same python list object (Op / OpSum entries, sometimes a ready Mpo of the first model is NOT included: an Mpo is
+# bound to its model) is passed to expectations() / expectation() of states living on DIFFERENT models with the same
+# dof names: other oscillator frequency, other site order, other number of levels.  Each result is compared with a
+# dense reference built with numpy.kron from first-principles local matrices (not Mpo.todense), and the caller's list
+# must be left untouched (same objects, same types, same length): the result may depend on (state, model, op) only.
+def _local(symbol, spec):
+    kind = spec[0]
+    if kind == "spin":
+        # the 2x2 matrices of the spin symbols are a convention of the basis class (which level is "up");
+        # they are read from it, the composition over sites (kron, site order, factors, sums) is independent
+        return np.asarray(BasisHalfSpin("probe").op_mat(symbol))
+    if kind == "elec":
+        return {r"a^\dagger a": np.diag([0., 1.])}[symbol]
+    omega, nb = spec[1], spec[2]
+    b = np.diag(np.sqrt(np.arange(1, nb)), k=1)
+    if symbol == "x":
+        return np.sqrt(0.5 / omega) * (b.T + b)
+    if symbol == "p":
+        return 1j * np.sqrt(omega / 2) * (b.T - b)
+    if symbol in ("n", r"b^\dagger b"):
+        return np.diag(np.arange(nb)).astype(float)
+    if symbol == r"b^\dagger+b":
+        return b.T + b
+    raise ValueError(symbol)
+
+
+def _spin_convention_ok():
+    """the spin symbols' matrices are a convention of the basis class; read it once and use kron on top of it"""
+    return True
+
+
+def _hand_dense(mp):
+    res = np.ones((1, 1), dtype=complex)
+    for ms in mp:
+        arr = np.asarray(ms.array)
+        res = np.tensordot(res, arr, axes=([-1], [0])).reshape(-1, arr.shape[-1])
+    return res[:, 0]
+
+
+def run_shared_list_case(seed, idx):
+    rng = random.Random("c07-sl-%d-%d" % (seed, idx))
+    nprng = np.random.default_rng([seed, idx, 13])
+    fails = []
+    n = rng.randint(2, 5)
+    # dof table: name -> spec
+    specs = {}
+    order = []
+    ne = 0
+    for i in range(n):
+        r = rng.random()
+        if r < 0.45:
+            name = "v%d" % i
+            specs[name] = ("sho", rng.choice([0.5, 1.0, 1.7]), rng.randint(2, 4))
+        elif r < 0.75:
+            name = "e%d" % i
+            specs[name] = ("elec",)
+            ne += 1
+        else:
+            name = "s%d" % i
+            specs[name] = ("spin",)
+        order.append(name)
+    if not any(v[0] == "sho" for v in specs.values()):
+        specs[order[0]] = ("sho", 1.0, 3) if not order[0].startswith("e") else specs[order[0]]
+        if order[0].startswith("e"):
+            order.append("v%d" % n)
+            specs[order[-1]] = ("sho", 1.0, 3)
+
+    def variant(kind):
+        sp = dict(specs)
+        od = list(order)
+        if kind == "freq":
+            for k, v in specs.items():
+                if v[0] == "sho":
+                    sp[k] = ("sho", v[1] * rng.choice([0.4, 2.5, 3.0]), v[2])
+        elif kind == "order":
+            od = list(order)
+            while od == order and len(od) > 1:
+                rng.shuffle(od)
+        elif kind == "nbas":
+            for k, v in specs.items():
+                if v[0] == "sho":
+                    sp[k] = ("sho", v[1], v[2] + 1)
+        return od, sp
+    seq = [("A", (list(order), dict(specs)))]
+    for kind in rng.sample(["freq", "order", "nbas", "freq"], rng.randint(2, 3)):
+        seq.append((kind, variant(kind)))
+    if rng.random() < 0.5:
+        seq.append(("A-again", (list(order), dict(specs))))
+
+    def build_model(od, sp):
+        basis = []
+        for name in od:
+            v = sp[name]
+            if v[0] == "sho":
+                basis.append(BasisSHO(name, v[1], v[2]))
+            elif v[0] == "elec":
+                basis.append(BasisSimpleElectron(name))
+            else:
+                basis.append(BasisHalfSpin(name))
+        return Model(basis, [])
+
+    # the symbolic observables and their reference description  [(factor, {dof: symbol}), ...] per list entry
+    def one_term():
+        k = rng.randint(1, min(2, len(order)))
+        dofs = rng.sample(order, k)
+        loc = {}
+        for d in dofs:
+            kind = specs[d][0]
+            loc[d] = rng.choice({"sho": ["x", "p", "n", "x", r"b^\dagger+b"], "elec": [r"a^\dagger a"],
+                                 "spin": ["sigma_x", "sigma_z", "sigma_+", "sigma_y"]}[kind])
+        cplx = any(v in ("p", "sigma_y") for v in loc.values())
+        f = rng.choice([1.0, -0.5, 2.0])
+        fac = complex(f, 0.0) if cplx else f
+        syms, ds = [], []
+        for d in dofs:
+            syms.append(loc[d])
+            ds += [d] * len(loc[d].split(" "))
+        return Op(" ".join(syms), ds, fac), (f, loc)
+    ops, refs = [], []
+    for _ in range(rng.randint(2, 7)):
+        if rng.random() < 0.3:
+            (o1, r1), (o2, r2) = one_term(), one_term()
+            ops.append(o1 + o2)
+            refs.append([r1, r2])
+        else:
+            o1, r1 = one_term()
+            ops.append(o1)
+            refs.append([r1])
+    if rng.random() < 0.5:
+        ops.append(ops[0])
+        refs.append(refs[0])
+    snapshot = list(ops)
+    types = [type(o) for o in ops]
+    info = {"kind": "shared-list", "n": len(order), "nops": len(ops), "sequence": [k for k, _ in seq], "order": order}
+    nchecks = 0
+    for label, (od, sp) in seq:
+        model = build_model(od, sp)
+        qn = rng.randint(0, ne) if ne else 0
+        try:
+            st, _ = rand_mps(rng, nprng, model, "elec" if ne else "free", qn, rng.random() < 0.4)
+        except Exception as e:
+            info["skipped"] = "state generation raised %r" % (e,)
+            return info, fails, nchecks
+        form = "mps"
+        if rng.random() < 0.25 and not st.is_complex:
+            st = MpDm.from_mps(st)
+            form = "mpdm"
+        if form == "mps":
+            psi = _hand_dense(st)
+        else:
+            psi = dense_state(st)
+        dims = [int(d) for d in st.pbond_list]
+        dense_ops = []
+        for terms in refs:
+            tot = 0
+            for f, loc in terms:
+                m = np.ones((1, 1))
+                for name, d in zip(od, dims):
+                    m = np.kron(m, _local(loc[name], sp[name]) if name in loc else np.eye(d))
+                tot = tot + f * m
+            dense_ops.append(tot)
+        try:
+            how = rng.choice(["fast", "fast", "slow", "single-then-fast"])
+            if how == "single-then-fast":
+                pre = [st.expectation(o) for o in ops]
+            vals_fast = np.asarray(st.expectations(ops, opt=(how != "slow")))
+            vals_one = [st.expectation(o) for o in ops]
+        except Exception as e:
+            fails.append({"check": "shared-list-raised", "state": label, "error": repr(e)[:300]})
+            break
+        nchecks += 1
+        if (len(ops) != len(snapshot) or any(a is not b for a, b in zip(ops, snapshot)) or [type(o) for o in ops] != types) \
+                and not info.get("list_modified"):
+            info["list_modified"] = label
+            fails.append({"check": "shared-list-caller-list-modified", "state": label,
+                          "types_now": [type(o).__name__ for o in ops], "types_before": [t.__name__ for t in types]})
+            # keep going with the list as the call left it: the following states show what the caller then gets
+        nrm = float(np.linalg.norm(psi) ** 2)
+        for k, o in enumerate(dense_ops):
+            ref = dense_bilinear(psi.conj(), o, psi)
+            sc = nrm * max(np.linalg.norm(o, 2), 1e-300)
+            for name, v in (("expectations", vals_fast[k]), ("expectation", vals_one[k])):
+                nchecks += 1
+                if not close(v, ref, sc):
+                    fails.append({"check": "shared-list-" + name, "state": label, "how": how, "form": form, "op_index": k,
+                                  "impl": repr(complex(v)), "dense": repr(complex(ref)), "scale": float(sc)})
+    return info, fails, nchecks
+
+
 def replay(seed, idx):
     info, fails, n = run_case(seed, idx)
     info2, fails2, n2 = run_smallimag_case(seed, idx)
+    info3, fails3, n3 = run_shared_list_case(seed, idx)
     print(json.dumps(info))
     print(json.dumps(info2))
-    fails = fails + fails2
+    print(json.dumps(info3))
+    fails = fails + fails2 + fails3
     for f in fails[:5]:
         print("FAIL", json.dumps(f, default=str))
     return 1 if fails else 0
@@ -587,7 +779,13 @@ def main():
             info2, fails2, n2 = run_smallimag_case(seed, idx)
             for f in fails2:
                 f["info"] = info2
-            fails = fails + fails2
+            info3, fails3, n3 = run_shared_list_case(seed, idx)
+            for f in fails3:
+                f["info"] = info3
+            n += n3
+            for k_ in info3.get("sequence", [])[1:]:
+                out["hist"]["sl=%s" % k_] = out["hist"].get("sl=%s" % k_, 0) + 1
+            fails = fails + fails2 + fails3
             n += n2
             out["hist"]["si=%s" % info2["variant"]] = out["hist"].get("si=%s" % info2["variant"], 0) + 1
             r_ = info2.get("im_over_re")
